@@ -354,3 +354,13 @@ func TestNamedCreationFails(t *testing.T) {
 		kit.Rec.Case(desc, true, "named-target-creation-fails")
 	})
 }
+
+// TestLazyAfterOtherContainer: lazy components are populated after ANOTHER container of this process has started
+// (same types, partly the same names): they are wired from their own container, completely.
+func TestLazyAfterOtherContainer(t *testing.T) {
+	kit.Rec.Rule(rule)
+	rapid.Check(t, func(t *rapid.T) {
+		desc, labels, nt := graph.LazyAfterOther(t, "C07", false)
+		kit.Rec.Case(desc, nt, labels...)
+	})
+}
